@@ -14,17 +14,11 @@ namespace Apollo.Parse
 open Apollo.Rowan hiding Str
 open Apollo.Lex hiding Str
 
-/-- KNOWN FINDING (accepts-description-before-fragment): a string, then `fragment on T Directives? SelectionSet` — the
-    description is bumped as the `fragment` keyword and `fragment` is read as the fragment's name -/
-def IsDescFragment (x : List Ast.Tok) : Prop :=
-  ∃ d nm tc dirs sels, sels ≠ Ast.Sels.nil ∧ nm ≠ sOnP ∧
-    x = .str d :: .name nm :: .name sOnP :: .name tc :: (Ast.tDirectives dirs ++ Ast.tSelSet sels)
-
 /-- the tokens of ONE definition as `document()` accepts it: an operation definition in the long or the shorthand form
-    (builderB's `IsOperation`), a fragment definition (`IsFragment`), a type-system definition or extension up to the two
-    documented liberties (builderD's `LooseDef`), or the third liberty `IsDescFragment` -/
+    (builderB's `IsOperation`), a fragment definition (`IsFragment`), or a type-system definition or extension up to the
+    two documented liberties (builderD's `LooseDef`) -/
 def IsDef (x : List Ast.Tok) : Prop :=
-  IsOperation x ∨ IsFragment x ∨ (∃ l : LooseDef, x = l.toks) ∨ IsDescFragment x
+  IsOperation x ∨ IsFragment x ∨ (∃ l : LooseDef, x = l.toks)
 
 /-- where `select_definition` starts a definition parser for keyword `w`: on the keyword itself (a Name, or the
     `{` of a shorthand query), or on a description (String) whose next significant token is the keyword -/
